@@ -139,7 +139,41 @@ def life_consts():
         if [_dump(x) for x in _strip_doc(helper)] != [_dump(x) for x in _strip_doc(ref)]:
             raise TranslatorError("_release_shared_action differs from the modelled body:\n" + ast.unparse(helper))
         release = True
-    return {"scope_release_shared": release}
+    return {"scope_release_shared": release, "cleanup_keeps_needed_parents": _cleanup_shape(tree)}
+
+
+NEEDED_REF = ("needed_parent_uids = {flow_state.parent_uid for flow_state in state.flow_states.values() "
+              "if not _is_done_flow(flow_state) or flow_state.activated != 0}")
+CLEANUP_CONJUNCTS = ["_is_done_flow(flow_state)",
+                     "datetime.now() - flow_state.status_updated > timedelta(seconds=5)",
+                     "flow_state.activated == 0"]
+CLEANUP_KEEP = "flow_state.uid not in needed_parent_uids"
+
+
+def _cleanup_shape(tree):
+    """The condition under which _clean_up_state discards an instance: ended, older than 5 s, count 0
+    [, not the parent of a running or activated instance].  Any other conjunct is an error."""
+    fn = _func(tree, "_clean_up_state")
+    if fn is None:
+        raise TranslatorError("function _clean_up_state not found")
+    tests = []
+    for n in ast.walk(fn):
+        if isinstance(n, ast.If) and len(n.body) == 1 and ast.unparse(n.body[0]) == "states_to_be_removed.append(flow_state.uid)":
+            tests.append(n.test)
+    if len(tests) != 1:
+        raise TranslatorError(f"_clean_up_state: expected one removal test, found {len(tests)}")
+    t = tests[0]
+    if not (isinstance(t, ast.BoolOp) and isinstance(t.op, ast.And)):
+        raise TranslatorError("_clean_up_state: removal test is not a conjunction")
+    conj = [ast.unparse(v) for v in t.values]
+    if conj == CLEANUP_CONJUNCTS:
+        return False
+    if conj == CLEANUP_CONJUNCTS + [CLEANUP_KEEP]:
+        assigns = [ast.unparse(n) for n in ast.walk(fn) if isinstance(n, ast.Assign) and ast.unparse(n.targets[0]) == "needed_parent_uids"]
+        if assigns != [NEEDED_REF]:
+            raise TranslatorError("_clean_up_state: needed_parent_uids differs from the modelled definition: " + str(assigns))
+        return True
+    raise TranslatorError("_clean_up_state: removal condition differs from the modelled shape: " + " and ".join(conj))
 
 
 def emit():
@@ -150,6 +184,8 @@ def emit():
         "Definition stop_guards_checked : bool := true.\n"
         "(* EndScope: `else: _release_shared_action(flow_state, action_uid)` present in the source *)\n"
         f"Definition scope_release_shared : bool := {'true' if c['scope_release_shared'] else 'false'}.\n"
+        "(* _clean_up_state keeps an ended instance that is the parent of a running or activated instance *)\n"
+        f"Definition cleanup_keeps_needed_parents : bool := {'true' if c['cleanup_keeps_needed_parents'] else 'false'}.\n"
     )
 
 
